@@ -172,6 +172,15 @@ func (z *ZEnv) loadName(u *ssa.UnOp) (string, ssa.Value) {
 	return name, subst
 }
 
+// LoadName is the exported flow-sensitive name of a load ("" when the load is replaced by a known stored value).
+func (z *ZEnv) LoadName(u *ssa.UnOp) string {
+	n, subst := z.loadName(u)
+	if subst != nil {
+		return "=" + z.Canon(subst) + "'" + subst.Name()
+	}
+	return n
+}
+
 // fieldVersion determines which definition a field load observes: the entry value (""), the value of a
 // unique reaching store in this function (returned as val), or a unique version tag.
 func (z *ZEnv) fieldVersion(fa *ssa.FieldAddr, at *ssa.UnOp) (string, ssa.Value) {
@@ -318,6 +327,9 @@ func moduleImpls(c ssa.CallInstruction) []*ssa.Function {
 
 // CallMayWriteField is the exported form for rules.
 func CallMayWriteField(c ssa.CallInstruction, f FieldRef) bool { return callMayWriteField(c, f) }
+
+// ModuleFn: the function (or its generic origin / enclosing function) is defined in the analysed module.
+func ModuleFn(f *ssa.Function) bool { return moduleFn(f) }
 
 func moduleFn(f *ssa.Function) bool {
 	if f.Pkg != nil {
